@@ -339,6 +339,60 @@ def fw_faithful(li: int, slot: int, permit: bool, ipi: int, pti: int, pri: int, 
         check(f["PORTS"][k]["operating_status"] == (1 if port.enabled else 2), lambda: f"firewall port {k} status differs from the interface")
 
 
+TRAFFIC_LEVELS = [None, 0.0, 0.5, 40.0, 100.0]  # Mbit carried this step (None: the port has not been seen at all)
+
+
+def _band(x, speed=100.0):
+    # documented categorisation (NICObservation docstring): 0 no traffic, 1..10 the tenth of the interface speed in use
+    if not x:
+        return 0
+    return min(int(x / speed * 9) + 1, 10)
+
+
+def traffic_faithful(d_in: int, d_out: int, h_in: int, h_out: int, ic: int, nic_en: bool):
+    """The monitored-traffic leaves of a host interface: the amounts carried this step per monitored protocol / port are
+    written on the real interface as solver choices (every listed port independently: not seen, zero, a little, a lot,
+    the full speed) and every TRAFFIC leaf is compared with the band of the amount of exactly that port and direction."""
+    assume(all_of(rng(d_in, 0, 4), rng(d_out, 1, 4), rng(h_in, 0, 4), rng(h_out, 1, 4), rng(ic, 0, 4)))
+    # outbound level tied to the inbound one of the other port (every level of every leaf is still visited)
+    assume(all_of(any_of(d_out == h_in, all_of(h_in == 0, d_out == 1)), any_of(h_out == d_in, all_of(d_in == 0, h_out == 1))))
+    with concrete():
+        env, cfg = _env(False, "switched")
+        sim = env.game.simulation
+        om = env.agent.observation_manager
+        node = sim.network.get_node_by_hostname("client_1")
+        nic = node.network_interface[1]
+    t = {}
+    lv = TRAFFIC_LEVELS
+    di, do, hi, ho, icv = pick(lv, d_in), pick(lv, d_out), pick(lv, h_in), pick(lv, h_out), pick(lv, ic)
+    tcp = {}
+    if di is not None:
+        tcp[53] = {"inbound": di, "outbound": do}
+    if hi is not None:
+        tcp[80] = {"inbound": hi, "outbound": ho}
+    if tcp:
+        t["tcp"] = tcp
+    if icv is not None:
+        t["icmp"] = {"inbound": icv, "outbound": icv / 2}
+    nic.traffic = t
+    nic.enabled = nic_en
+    try:
+        obs = om.update(sim.describe_state())
+    except Exception as e:
+        fail(f"describe_state/update raised {type(e).__name__}: {str(e)[:200]}")
+    tr = obs["NODES"]["HOST0"]["NICS"][1]["TRAFFIC"]
+    cover("traffic")
+    want = {
+        ("tcp", 53): (_band(di), _band(do) if di is not None else 0),
+        ("tcp", 80): (_band(hi), _band(ho) if hi is not None else 0),
+    }
+    for (proto, port), (w_in, w_out) in want.items():
+        got = tr[proto][port]
+        check(got["inbound"] == w_in and got["outbound"] == w_out, lambda: f"TRAFFIC {proto}/{port} reads in={got['inbound']} out={got['outbound']}, the interface carried in={w_in} out={w_out} (bands) on that port [dns={di},{do} http={hi},{ho}]")
+    gi = tr["icmp"]
+    check(gi["inbound"] == _band(icv) and gi["outbound"] == _band(None if icv is None else icv / 2), lambda: f"TRAFFIC icmp reads {gi}, the interface carried {icv}")
+
+
 def users_faithful(local: bool, nrem: int, ns: int, limit: int):
     """The users leaves of a host: local_login is 1 exactly when a user is logged in locally, remote_sessions is the
     number of open remote sessions (capped at the observation's maximum); sessions are opened through the real
@@ -496,6 +550,13 @@ HARNESSES = {
         "thorough": [{"fixed": {"fw_on": True, "li": l}, "timeout": 1200} for l in range(6)] + [{"fixed": {"fw_on": False}, "timeout": 120}],
         "cover": ["fw_on", "fw_off"],
         "bounds": "generated firewall-with-DMZ scenario; one rule in any of the six lists at any of the 4 observed slots with listed/None address, wildcard, port, protocol and both actions; the three ports enabled/disabled; firewall ON/OFF",
+    },
+    "traffic_faithful": {
+        "fn": traffic_faithful,
+        "quick": [{"fixed": {}, "timeout": 280}],
+        "thorough": [{"fixed": {}, "timeout": 600}],
+        "cover": ["traffic"],
+        "bounds": "two monitored TCP ports and ICMP on one host interface, each independently not seen / 0 / 0.5 / 40 / 100 Mbit in and out (speed 100), interface enabled or not",
     },
     "users_faithful": {
         "fn": users_faithful,
